@@ -3,7 +3,7 @@
    H is an arbitrary hash function; nothing is assumed about it unless stated. *)
 From ChiaV.Base Require Import Bytes Sha256.
 From ChiaV.Gen Require Import Mset.
-From ChiaV.Merkle Require Import MerkleSpec MerkleSet MerkleTree MerkleConstProofs MerkleSetProofs MerkleProofSpec MerkleTreeProofs.
+From ChiaV.Merkle Require Import MerkleSpec MerkleSet MerkleTree MerkleConstProofs MerkleSetProofs MerkleProofSpec MerkleTreeProofs MerkleDeserProofs MerkleSoundProofs MerkleCompleteProofs MerkleExamples.
 Open Scope N_scope.
 
 (* EMPTY_NODE_HASH (merkle_tree.rs) is SHA-256 of BLANK (merkle_set.rs), both read from the source on this run *)
@@ -30,3 +30,35 @@ Proof. exact compute_root_set_invariant. Qed.
 Theorem C12_tree_root_agrees : forall (H : bytes -> bytes) l, Forall leaf32 l ->
   exists t, from_leafs H l = Ok t /\ get_root H t = compute_merkle_set_root H l.
 Proof. exact from_leafs_root. Qed.
+
+(* (4) soundness for ARBITRARY proof bytes: if validate_merkle_proof accepts a byte string against the
+   root of S and reports b for item x, then b is the truth about membership -- unless the run exhibits
+   two distinct inputs with equal digest, or an input whose digest is the all-zero BLANK
+   (BLANK doubles as the root of the empty set, so such a preimage would make a non-empty set look empty).
+   Only hypothesis on H: digests are 32 bytes long. *)
+Theorem C12_proof_sound : forall (H : bytes -> bytes), (forall m, length (H m) = 32%nat) ->
+  forall S x proof root b, Forall leaf32 S -> leaf32 x ->
+  compute_merkle_set_root H S = Ok root ->
+  validate_merkle_proof H proof x root = Ok b ->
+  b = mem x S \/ collision H \/ zero_preimage H.
+Proof. exact proof_sound. Qed.
+
+(* the hypothesis of C12_proof_sound holds for the executable SHA-256 *)
+Theorem C12_sha256_digest_length : forall m, length (sha256 m) = 32%nat.
+Proof. exact sha256_len. Qed.
+
+(* (3) completeness: for every set and every item, from_leafs succeeds, generate_proof returns the true
+   inclusion flag together with proof bytes, and validate_merkle_proof accepts exactly those bytes against
+   the computed root with the same flag.  No panic, no fuel exhaustion, no collision disjunct. *)
+Theorem C12_proof_complete : forall (H : bytes -> bytes), (forall m, length (H m) = 32%nat) ->
+  forall S x, Forall leaf32 S -> leaf32 x ->
+  exists t p root, from_leafs H S = Ok t /\ generate_proof t x = Ok (mem x S, p) /\
+    compute_merkle_set_root H S = Ok root /\ validate_merkle_proof H p x root = Ok (mem x S).
+Proof. exact proof_complete. Qed.
+
+(* non-vacuity: concrete runs with the executable SHA-256 (a 3-element set given with a duplicate,
+   a member and a non-member), checked by vm_compute *)
+Theorem C12_example_member : ex_run ex_a = Some (true, true).
+Proof. exact example_member. Qed.
+Theorem C12_example_non_member : ex_run ex_x = Some (false, false).
+Proof. exact example_non_member. Qed.
